@@ -1,6 +1,6 @@
 (* Proofs/SimJ2.v — HASH records in the PREVIOUS cache, part 2: the lookups (SimB8) with
    "hk = true -> HInv w" in place of "hk = true -> hash_ok w".  The side conditions subs_ok /
-   file_rec_ok / sub_rec_ok are those of SimB8 (with hk = true they admit HASH).          *)
+   file_rec_ok / sub_rec_ok are those of SimB8 (with hk = true they allow HASH).          *)
 From Coq Require Import List String Ascii NArith ZArith Bool Arith Lia.
 From FB.Base Require Import PyVal Fs.
 From FB.Gen Require Import JsonUtilGen.
